@@ -80,7 +80,7 @@ func cmdVerify(args []string) {
 	fmt.Printf("loaded in %.1fs\n", time.Since(t0).Seconds())
 	var units []*Unit
 	for fn, con := range e.cons {
-		if con.Trusted {
+		if con.Trusted || pureOnly(con) {
 			continue
 		}
 		for _, u := range e.unitsFor(fn, con) {
